@@ -1,4 +1,6 @@
 import CDVProofs.LineTable
+import CDVProofs.LineSem
+import CDVProofs.LineSemOld
 /-! # C10 — the line-table codec agrees with CPython for everything its assembler can emit
 
 Property theorems only; helper lemmas live in `CDVProofs/LineTable.lean`.
@@ -25,6 +27,54 @@ theorem C10_bytes_rows_roundtrip (isLT : Bool) (b : List Nat) (heven : b.length 
     ∃ cs, collapse isLT (bytesToItems b) = some cs ∧ itemsToBytes (expand isLT cs) = b := by
   obtain ⟨cs, h1, h2⟩ := C10_expand_collapse isLT (bytesToItems b) (bytesToItems_validRow isLT b hbytes h255)
   exact ⟨cs, h1, by rw [h2]; exact C10_bytes b heven hbytes⟩
+
+/-- **Decoded lines are CPython's lines — 3.10 `co_linetable`** (stage 3, decoding direction, composed with stages 1-2).
+    For every table of in-range rows with even address deltas — arbitrary forward and backward line jumps, ranges beyond
+    one entry's 254 bytes, zero-width entries, runs without line; no assumption that CPython's assembler wrote it —
+    `to_line_mapping` succeeds, every entry of the decoded mapping at an even offset carries exactly the line CPython's own
+    reader (`co_lines()` / `PyCode_Addr2Line`, `Spec.lineOfLT`) assigns to that offset (`none` where CPython reports no
+    line), and every even offset inside the table's range has an entry. -/
+theorem C10_decoded_lines_310 (b : List Nat) (n : Nat) (heven : b.length % 2 = 0) (hbytes : ∀ x ∈ b, x < 256)
+    (h255 : ∀ x ∈ bytesToItems b, x.bc ≠ 255) (hbc : ∀ x ∈ bytesToItems b, x.bc % 2 = 0) :
+    ∃ lm, toLineMapping true b n = .ok lm ∧ lm.extra = [] ∧
+      ∀ o, o % 2 = 0 →
+        (∀ r, assoc? o lm.lines = some r → Spec.lineOfLT b o 0 0 = r) ∧
+        (o < ((bytesToItems b).map (·.bc)).sum → (assoc? o lm.lines).isSome) :=
+  decoded_lines_310 b n heven hbytes h255 hbc
+
+/-- **Decoded lines are CPython's lines — `co_lnotab` (3.7-3.9)** (stage 3, decoding direction, composed with
+    stages 1-2), **and the decoding loop terminates.**  For every lnotab byte string with even address deltas — any
+    forward and backward line jumps (split over several rows or not), gaps beyond 255 bytes, zero-width rows; no assumption
+    that CPython's assembler wrote it — `to_line_mapping` returns (its `while` loop ends within the model's fuel), and for
+    every even offset below the code length the decoded mapping holds exactly the line `PyCode_Addr2Line` computes. -/
+theorem C10_decoded_lines_lnotab (b : List Nat) (n : Nat) (heven : b.length % 2 = 0) (hbytes : ∀ x ∈ b, x < 256)
+    (hbc : ∀ x ∈ bytesToItems b, x.bc % 2 = 0) :
+    ∃ lm, toLineMapping false b n = .ok lm ∧
+      ∀ o, o % 2 = 0 → o < n → assoc? o lm.lines = some (some (Spec.lineOfOld b o 0 0)) :=
+  decoded_lines_old b n heven hbytes hbc
+
+/-- the evenness hypothesis is needed, and its failure is a termination finding rather than a wrong line: with an odd
+    address the offset counter (which advances by 2) never meets the row, and the loop of the implementation never ends;
+    the model runs out of fuel (outside the quantifier of C10: CPython's assembler only emits even addresses) -/
+example : toLineMapping false [1, 1] 4 = .error .fuel := by rfl
+
+/-- non-vacuity for `C10_decoded_lines_lnotab`: `(0,+127),(0,-127),(6,+1)` (the 3.8/3.9 compiler output of the repaired
+    defect followed by one more line) meets the hypotheses; CPython reads line +0 at offset 4 and +1 at offset 6 -/
+example : (∀ x ∈ bytesToItems [0, 127, 0, 129, 6, 1], x.bc % 2 = 0) ∧
+    Spec.lineOfOld [0, 127, 0, 129, 6, 1] 4 0 0 = 0 ∧ Spec.lineOfOld [0, 127, 0, 129, 6, 1] 6 0 0 = 1 := by
+  refine ⟨?_, by decide, by decide⟩
+  intro x hx
+  simp [bytesToItems, signed] at hx
+  rcases hx with rfl | rfl | rfl <;> simp
+
+/-- non-vacuity for `C10_decoded_lines_310`: `(4, +1), (254, -128), (2, -128), (6, +3)` — a line, 256 bytes without
+    line, a line — meets the hypotheses; offset 100 has no line, offset 260 has line 4 -/
+example : (∀ x ∈ bytesToItems [4, 1, 254, 128, 2, 128, 6, 3], x.bc ≠ 255 ∧ x.bc % 2 = 0) ∧
+    Spec.lineOfLT [4, 1, 254, 128, 2, 128, 6, 3] 100 0 0 = none ∧ Spec.lineOfLT [4, 1, 254, 128, 2, 128, 6, 3] 260 0 0 = some 4 := by
+  refine ⟨?_, by decide, by decide⟩
+  intro x hx
+  simp [bytesToItems, signed] at hx
+  rcases hx with rfl | rfl | rfl | rfl <;> simp
 
 /-- non-vacuity: the 3.8/3.9 compiler output `(0,+127),(0,-127)` (the witness of the repaired defect)
     meets the hypotheses and is not merged -/
